@@ -123,6 +123,10 @@ def attach_monitors():
     algebra.attach_algebra_monitors(("add", "scale"))
 
 
+class _Skip(Exception):
+    pass
+
+
 def one_history(ctx, index, rng: random.Random):
     import physt
     from physt.config import config
@@ -190,6 +194,22 @@ def one_history(ctx, index, rng: random.Random):
                 if op == "fill":
                     v = values(1)[0]
                     w = None if not weighted else rng.randint(1, 12) / 4
+                    if rng.random() < 0.2 and not adaptive:
+                        # the value / weight arrive as narrow numpy scalars (an element of an int16 / uint8 / float32 array): their
+                        # products and squares are numbers, not elements of that type
+                        iv = [x for x in range(int(math.ceil(lo)), int(math.floor(hi)) + 1) if 0 <= x <= 250]
+                        if iv:
+                            v = float(rng.choice(iv))
+                            v_arg = rng.choice([np.uint8, np.int16, np.float32, np.float16])(v)
+                            w_arg = None if w is None else rng.choice([np.float32, np.float16])(w)
+                            h.fill(v_arg) if w_arg is None else h.fill(v_arg, w_arg)
+                            lv.append(v)
+                            lw_full.append(1.0 if w is None else w)
+                            paths.add("fill")
+                            log.append(op + ":narrow")
+                            with attach.quiet():
+                                check_stats(rec, h, lv, lw_full, op="fill(narrow scalar)", detail={"log": log[-10:], "value_type": type(v_arg).__name__})
+                            continue
                     h.fill(v) if w is None else h.fill(v, w)
                     lv.append(v)
                     lw_full.append(1.0 if w is None else w)
@@ -265,7 +285,7 @@ def one_history(ctx, index, rng: random.Random):
     rec.mon("C14.invalid")
     with warnings.catch_warnings():
         warnings.simplefilter("ignore")
-        kind = rng.choice(["sub", "isub", "free_add_array", "free_mul_array", "bare", "free_sub_hist"])
+        kind = rng.choice(["sub", "isub", "free_add_array", "free_mul_array", "bare", "free_sub_hist", "add_bare", "bare_add", "normalize_bins"])
         try:
             if kind == "sub":
                 r = h - h * 0.5
@@ -276,6 +296,20 @@ def one_history(ctx, index, rng: random.Random):
                 from physt.histogram1d import Histogram1D
 
                 r = Histogram1D(np.array(h.bins), np.asarray(h.frequencies).copy())
+            elif kind in ("add_bare", "bare_add"):
+                # valid statistics + a histogram that has none (built from bare contents): nothing stays behind as a number
+                from physt.histogram1d import Histogram1D
+
+                bare = Histogram1D(h.binning.copy(), np.asarray(h.frequencies).copy())
+                r = (h + bare) if kind == "add_bare" else (bare + h)
+            elif kind == "normalize_bins":
+                # the members of a collection divided bin by bin (array arithmetic)
+                from physt.histogram_collection import HistogramCollection
+
+                if adaptive or h.total == 0:
+                    raise _Skip()
+                col = HistogramCollection(h.copy(), h.copy() * 2)
+                r = col.normalize_bins().histograms[0]
             else:
                 with config.enable_free_arithmetics():
                     if kind == "free_add_array":
@@ -289,6 +323,8 @@ def one_history(ctx, index, rng: random.Random):
                     st = r.statistics
                     rec.fail(monitor="C14.invalid", op=kind, symptom="statistics read as numbers after an operation that cannot maintain them (must be NaN)",
                              diff=["statistics"], detail={"statistics": [float(getattr(st, f)) for f in ("sum", "sum2", "min", "max", "weight")], "log": log[-6:]})
+        except _Skip:
+            pass
         except Exception as ex:
             if kind not in ("sub", "isub"):
                 rec.fail(monitor="C14.invalid", op=kind, symptom=f"operation raised {type(ex).__name__}", diff=["raised"], detail={"error": str(ex)[:160]})
